@@ -6,7 +6,7 @@ from checks import genjobs
 
 META = {
     "level": "proof",
-    "text": "aifeyn_complexity is verified from its AST for label lists of any length and any parameter list: result = len(tree) ln(d+h) + sum over the integer "
+    "text": "fit_single.tree_to_aifeyn (the single-tree API) is verified as data flow: it hands aifeyn_complexity the labels and the parameter list a0 .. a(max_param-1), max_param from get_max_param of the tree's own string, and returns that value with len(labels). aifeyn_complexity is verified from its AST for label lists of any length and any parameter list: result = len(tree) ln(d+h) + sum over the integer "
             "labels of ln|c'| with d the number of distinct non-parameter non-integer labels, h = 1 iff a parameter or integer occurs, 0 read as 1 (strings are abstract "
             "labels with the classification predicates the code uses). The parameter list its callers build ([a0 .. a(m-1)] with m = simplifier.get_max_param(functions)) covers every "
             "function whose parameters are numbered without gaps: get_max_param is verified (if a function contains a0 .. a(k-1) then k <= m), and so is count_params (1 + the largest j "
@@ -59,6 +59,12 @@ def check(run):
     if failed and not found:
         from checks.C14 import report_unproved
         report_unproved(run, failed, False, "aifeyn_complexity")
+    from contracts import c_fit_single
+    st_, tfailed, _e = D.verify_function(run, "fitting/fit_single.py", "tree_to_aifeyn", c_fit_single.tree_to_aifeyn_contract, timeout_ms=8000,
+                                         note="data flow with every callee opaque: the parameter list handed to aifeyn_complexity is a0 .. a(max_param-1) of the tree's own string")
+    if tfailed and not found and not run.violations:
+        from checks.C14 import report_unproved
+        report_unproved(run, tfailed, False, "fit_single.tree_to_aifeyn")
     if pfailed and not found and not run.violations:
         from checks.C14 import report_unproved
         report_unproved(run, pfailed, False, "simplifier.get_max_param / count_params")
